@@ -76,6 +76,9 @@ func (e *env) runSyncPairs(n int, deep bool) {
 	add(e.newScenario(1, 3, 4, true), fault{}) // the remote holds the lighter branch: it must not be followed
 	add(e.bigScenario(1, 3, e.bigBranch(1, 8, 200*1024), "bytes-A1-H3-R9"), fault{})
 	add(e.bigScenario(3, 5, e.branch('r', 3, 1100), "count-A3-H5-R1103"), fault{})
+	// a block larger than the server's whole 512 KB reply budget, first in a reply
+	e.trunkTo(2)
+	add(e.bigScenario(2, 3, e.dataBlocks(e.trunk[2], []int{600 * 1024, 0, 0}, 7_000_000), "huge-first-A2-H3-R5"), fault{})
 	hsc := e.newScenario(1, 2, 6, false)
 	for i, k := range []string{"undecodable", "invalid", "shiftback", "short", "struct", "dup", "orphan", "toolarge"} {
 		add(hsc, fault{k, 1 + 2 + i%3, i})
